@@ -42,6 +42,18 @@ CHECKS = {
    text="All expression trees of operator depth<=2 over the 19 binary and 7 prefix operators, depth-3 trees over one operator per precedence/gluing class, every expression node kind in every operand slot, ~900 statement/declaration forms (every header shape, labels, type-parameter lists incl. the [P *T] ambiguity, tags, embedded fields, unions), a fixed corpus of stripped standard-library files (30 packages quick / all of GOROOT/src thorough), and 6.5k real builds attaching comments (5 shapes x 20 statement kinds x 11 containers x 3 positions x once-flag) with the front-end protocol. The printed text must parse back to the same tree (up to parentheses/positions), be a go/format fixed point, and carry each comment exactly once directly before its statement.",
    note="Trusted: go/parser, go/format, go/scanner 1.23.5; reflect-based tree comparison that ignores positions, parentheses, comments, resolution data. Trees the builder cannot hold are excluded and listed in DESIGN.md (dereference of a binary operation, bare empty statement).",
    design="§4 C12"),
+ "C05": dict(
+   category="exploration",
+   technique="exhaustive grid over a closed universe of types and constants on the real predicates and through 10 real constructs; oracle = go/types on one-statement programs",
+   text="All ordered pairs of a 62-type universe for AssignableConv/AssignableTo, ConvertibleTo and ComparableTo (both orders; symmetry), 45 boundary constants x every target type, Default for every type; then the same question through var init, assignment, argument, return, slice/array/map/struct elements, send and case clause on fresh packages (reduced grid quick, full thorough). Deviations pinned per (predicate|V|T|verdicts) in known/C05.<tier>.tsv.",
+   note="Trusted: go/types 1.23.5 verdicts; default configuration only.",
+   design="§4 C05"),
+ "C10": dict(
+   category="exploration",
+   technique="bounded exhaustive enumeration of function bodies (control-flow skeletons) built on the real CodeBuilder; oracle = go/types' missing-return and label diagnostics on the reference text",
+   text="1.2M bodies of func() int (quick): every statement form nested to depth 2 with one statement per inner block, all two-statement bodies of depth 1, shadowed-panic variants, a label family; only bodies whose reference text has no other go/types error are judged; the multiset of the three studied diagnostics must coincide.",
+   note="Trusted: go/types 1.23.5; the statement driver (labels pre-created per function body).",
+   design="§4 C10"),
 }
 
 NOT_APPLICABLE = {
